@@ -192,3 +192,40 @@ func staleBindingCases(r *rand.Rand, st *Stats, n int, prefix string) []Case {
 	}
 	return cases
 }
+
+// ambiguous bindings read by a back-reference (C02): two paths reach the same instruction at the same offset with
+// DIFFERENT text bound to the name (a variable-length piece after the binding compensates for the binding's length),
+// the first one fails later, the second one is the match.  Exhaustive over shapes x pieces x ends x text lengths.
+func ambiguousBackrefCases(st *Stats, prefix string) []Case {
+	cases := []Case{}
+	i := 0
+	for _, p := range []string{"a", "ab"} {
+		P, PP := quote(p), quote(p+p)
+		for _, end := range []string{"file end", "'!'", ""} {
+			shapes := []string{
+				fmt.Sprintf("(%s or %s) = x (%s or %s) x %s", P, PP, PP, P, end),
+				fmt.Sprintf("(%s or %s) = x (%s or %s) x %s", PP, P, P, PP, end),
+				fmt.Sprintf("file start (at least 0 %s fewest) = x (at most 1 %s) x x %s", P, P, end),
+				fmt.Sprintf("((%s or %s) = x) ((%s or %s) = y) x y %s", P, PP, P, PP, end),
+				fmt.Sprintf("(maybe %s) = x (maybe %s) x %s %s", P, P, P, end),
+				fmt.Sprintf("(at most 2 %s) = x (at least 0 %s fewest) x %s", P, P, end),
+				fmt.Sprintf("(at least 1 %s fewest) = x at most 2 (%s) x %s", P, P, end),
+			}
+			for si, body := range shapes {
+				for k := 1; k <= 7; k++ {
+					text := strings.Repeat(p, k)
+					if end == "'!'" {
+						text += "!"
+					}
+					for _, pre := range []string{"", "z"} {
+						i++
+						st.Features[fmt.Sprintf("ambiguous-backref-%d", si)]++
+						cases = append(cases, Case{ID: fmt.Sprintf("%s%d", prefix, i), Op: "run",
+							Fields: []string{hx("find all " + body), hx(pre + text)}, Meta: map[string]string{}})
+					}
+				}
+			}
+		}
+	}
+	return cases
+}
